@@ -345,8 +345,15 @@ def concrete_check(n, T, x, y, sig, pw, c=2.0, seed=0, rtol=1e-7):
   for j in range(T):
     cells['x', n + j] = float(xb + dx)
     cells['y', n + j] = float(a + b * (xb + dx) + ri / T)
+  # split layout: two geos per group, unassigned geo / period rows, shuffled
+  rng = np.random.default_rng(seed + 3)
+  for d in range(n + T):
+    for k in 'wuv':
+      cells[k, d] = float(np.round(rng.uniform(0, 3), 3))
+  for i in range(4):
+    cells['z', i] = float(np.round(rng.uniform(0, 30), 3))
   m = TBRmod.TBR(use_cooldown=False)
-  m.fit(c06.frame(cells, n, T, 0, 'A'), 'response')
+  m.fit(c06.frame(cells, n, T, 0, 'B'), 'response')
   row = m.summary(level=sig, tails=1, report='last').iloc[-1]
   if not close(row['estimate'], ri):
     bad.append('post-analysis-estimate')
